@@ -88,10 +88,13 @@ pub struct Layout {
     /// comment lines in front so that a line ends exactly at a buffer boundary of the readers
     #[serde(default)]
     pub align: Option<super::align::Align>,
+    /// one comment line of this many KiB (longer than the readers' buffers: the "line does not fit" paths run)
+    #[serde(default)]
+    pub long_line_kb: u8,
 }
 impl Layout {
     pub fn plain() -> Layout {
-        Layout { seed: 0, five_field: false, comments: false, blank_lines: false, sep: 0, numbers: 0, crlf: false, final_newline: true, n_row_pos: 0, empty_sections: true, padding_kb: 0, align: None }
+        Layout { seed: 0, five_field: false, comments: false, blank_lines: false, sep: 0, numbers: 0, crlf: false, final_newline: true, n_row_pos: 0, empty_sections: true, padding_kb: 0, align: None, long_line_kb: 0 }
     }
 }
 #[derive(Clone, Debug, Serialize, Deserialize)]
@@ -525,6 +528,15 @@ impl MpsModel {
                 lines.insert(pos, l);
             }
         }
+        if lay.long_line_kb > 0 {
+            let mut prng = Rng::new(lay.seed ^ 0x1046);
+            let mut l = String::from("* ");
+            for _ in 0..lay.long_line_kb as usize * 1024 {
+                l.push((b'!' + prng.below(90) as u8) as char);
+            }
+            let pos = prng.usize(lines.len());
+            lines.insert(pos, l);
+        }
         let nl = if lay.crlf { "\r\n" } else { "\n" };
         if let Some(a) = &lay.align {
             let lens: Vec<usize> = lines.iter().map(|l| l.len()).collect();
@@ -686,5 +698,6 @@ pub fn gen_layout(rng: &mut Rng) -> Layout {
         empty_sections: rng.chance(1, 2),
         padding_kb: 0,
         align: None,
+        long_line_kb: 0,
     }
 }
